@@ -608,6 +608,14 @@ package protocol
 //@   top-ensures !old(noBodyStatus(h.statusCode)) && contentLength >= 0 ==> sclDel
 //@   top-ensures !old(noBodyStatus(h.statusCode)) && contentLength < 0 ==> sclSet
 
+// C17 (Set on a parsed argument list): updating an existing key stores the new has-value flag together with the new
+// value - a key that was parsed without '=' and is then given a value is serialised with that value.
+//@ func setArg(h, key, value, noValue) r
+//@   props C17
+//@   abstract
+//@   noinline
+//@   panics
+//@   assert before return#0: kv.noValue == noValue && (noValue ==> len(kv.value) == 0)
 // Header argument lists (slices of argsKV): used at call sites with a frame only; not verified
 // against their bodies (copy of struct elements is outside the modelled subset) - listed as assumed.
 //@ func delAllArgsBytes(args, key) r
